@@ -129,6 +129,19 @@ impl<'a> DsvCursor<'a> {
         core::str::from_utf8(self.current_field())
     }
 
+    /// Is the cursor at the end of the text, directly after a field delimiter
+    /// (a marker that is not a row terminator)? That is the one place where a
+    /// field exists (the empty field after a trailing delimiter) although
+    /// `at_end()` is already true.
+    fn after_trailing_delimiter(&self) -> bool {
+        let len = self.text.len();
+        if len == 0 || self.position != len {
+            return false;
+        }
+        let is_marker = self.index.markers_rank1(len) > self.index.markers_rank1(len - 1);
+        is_marker && !self.at_newline()
+    }
+
     /// Check if the current byte is a newline marker.
     fn at_newline(&self) -> bool {
         if self.position == 0 || self.position > self.text.len() {
@@ -178,7 +191,7 @@ impl<'a> DsvRow<'a> {
             ..self.cursor
         };
 
-        for _ in 0..column {
+        for step in 0..column {
             // Check if we hit a newline before reaching the column
             let field = cursor.current_field();
             if field.is_empty() && cursor.at_end() {
@@ -186,6 +199,13 @@ impl<'a> DsvRow<'a> {
             }
 
             if !cursor.next_field() {
+                // End of data. If the byte just stepped over was a delimiter
+                // (not a row terminator), the row still has one more field: the
+                // empty one after that trailing delimiter, exactly as if the
+                // text ended with a record separator.
+                if step + 1 == column && cursor.after_trailing_delimiter() {
+                    return Some(&cursor.text[cursor.text.len()..]);
+                }
                 return None;
             }
 
@@ -280,6 +300,11 @@ impl<'a> Iterator for DsvFields<'a> {
         // Move to next field
         if !self.cursor.next_field() {
             self.finished = true;
+            // End of data. A row whose last byte is a delimiter still has a
+            // final empty field ("a," has the same two fields as "a,\n").
+            if self.cursor.after_trailing_delimiter() {
+                return Some(&self.cursor.text[self.cursor.text.len()..]);
+            }
             return None;
         }
 
